@@ -67,7 +67,10 @@ def shards(tier, seed):
         # node ids in reverse time order (parents have smaller ids than their children)
         split(dict(N=3, G=2, times="rev"), 30, "full")
         split(dict(N=4, G=2, times="rev"), 24, "quick", "some")
+        # a tree exactly one ulp wide (seek arithmetic on coordinates must not round across it)
+        split(dict(N=2, G=3, times="id", grid="ulp"), 30, "quick")
     else:
+        split(dict(N=3, G=3, times="id", grid="ulp"), 30, "quick", "some")
         split(dict(N=1, G=2, times="id"), 30, "full")
         split(dict(N=2, G=3, times="weak"), 30, "full")
         split(dict(N=3, G=2, times="weak"), 30, "full")
